@@ -1,5 +1,6 @@
 import RemocModel.Table.ConnReq
 import RemocModel.Table.ConnOpen
+import RemocModel.Table.ConnFlag
 set_option linter.unusedSimpArgs false
 set_option linter.unusedVariables false
 /-
@@ -256,5 +257,47 @@ theorem run_append (s : St) (l1 l2 : List (Who × Lab)) : run s (l1 ++ l2) = run
     obtain ⟨y, k⟩ := a
     simp only [List.cons_append, run]
     split <;> exact ih _
+
+/-- requests + ports + connection flags -/
+structure Inv3 (s : St) : Prop where
+  i2 : Inv2 s
+  fab : FlagInv s.a.ep s.b.ep s.toB
+  fba : FlagInv s.b.ep s.a.ep s.toA
+  ca : ClientInv s.a
+  cb : ClientInv s.b
+
+theorem flagInv_init (x y : Ep) (h1 : x.allClientsDropped = false) (h2 : x.listenerDropped = false)
+    (h3 : x.goodbyeSent = false) (h4 : y.remoteClientDropped = false) (h5 : y.remoteListenerDropped = false)
+    (h6 : y.goodbyeReceived = false) (h7 : y.clientDroppedQueued = 0) : FlagInv x y [] :=
+  ⟨by simp [h1, h4, b2n], by simp [h2, h5, b2n], by simp [h3, h6, b2n], rfl, fun _ => rfl, by simp [h7],
+   fun h => by rw [h3] at h; simp at h⟩
+
+theorem inv3_init (mpA cqA mpB cqB : Nat) : Inv3 (init mpA cqA mpB cqB) :=
+  ⟨inv2_init mpA cqA mpB cqB, flagInv_init _ _ rfl rfl rfl rfl rfl rfl rfl, flagInv_init _ _ rfl rfl rfl rfl rfl rfl rfl,
+   clientInv_init _ rfl, clientInv_init _ rfl⟩
+
+theorem inv3_step (s s' : St) (x : Who) (l : Lab) (hi : Inv3 s) (h : step s x l = some s') : Inv3 s' := by
+  have h2 := inv2_step s s' x l hi.i2 h
+  cases x with
+  | A =>
+    simp only [step, Option.map_eq_some_iff] at h
+    obtain ⟨⟨a', inW, out⟩, hs, rfl⟩ := h
+    obtain ⟨f1, f2⟩ := flag_step_side s.a s.b a' s.toB s.toA inW out l hs hi.fab hi.fba hi.i2.r.qa hi.ca hi.i2.r.wa
+    exact ⟨h2, f1, f2, clientInv_step _ _ _ _ _ _ hs hi.ca hi.i2.r.qa hi.i2.r.wa, hi.cb⟩
+  | B =>
+    simp only [step, Option.map_eq_some_iff] at h
+    obtain ⟨⟨b', inW, out⟩, hs, rfl⟩ := h
+    obtain ⟨f1, f2⟩ := flag_step_side s.b s.a b' s.toA s.toB inW out l hs hi.fba hi.fab hi.i2.r.qb hi.cb hi.i2.r.wb
+    exact ⟨h2, f2, f1, hi.ca, clientInv_step _ _ _ _ _ _ hs hi.cb hi.i2.r.qb hi.i2.r.wb⟩
+
+theorem inv3_run (s : St) (ls : List (Who × Lab)) (hi : Inv3 s) : Inv3 (run s ls) := by
+  induction ls generalizing s with
+  | nil => exact hi
+  | cons xl ls ih =>
+    obtain ⟨x, l⟩ := xl
+    simp only [run]
+    split
+    · rename_i s' hs; exact ih s' (inv3_step s s' x l hi hs)
+    · exact ih s hi
 
 end Remoc.Table.Sys
